@@ -319,8 +319,8 @@ theorem exportLoop_chain (b : H) (wb : WF b) (self : Nat) :
             intro h'' af n hn
             obtain ⟨m, rfl⟩ : ∃ m, n = m + 1 := ⟨n - 1, by omega⟩
             obtain ⟨t1, t2, t3, t4, t5, t6, _, t8⟩ := af.1 par (by omega)
-            obtain ⟨u1, u2, u3, u4, _, _, u7⟩ := sb3
-            obtain ⟨v1, v2, v3, v4, _, _, v7⟩ := sb2
+            obtain ⟨u1, u2, u3, u4, _, _, u7, _⟩ := sb3
+            obtain ⟨v1, v2, v3, v4, _, _, v7, _⟩ := sb2
             refine chainNode_of m hk (by rw [t1, u1, v1, root.kind, hc0]) (by rw [t2, u2, v2, root.name, hc0])
               (by rw [t4, u4, v4, root.attrs, hc0]) (by rw [t8, u7, v7, root.merged, hc0])
               (by rw [t3, u3, v3, root.idKept rfl, hc0]) ?_ (fun hs => ?_)
